@@ -38,6 +38,10 @@ PROFILES = {
     'c08': dict(kinds=dict(handler=3, proc=3, buffer=2, batcher=0.5, gates=3, path=5),
                 fault_kinds=('fail', 'shutdown', 'restore', 'wo', 'addres', 'block', 'adjust', 'wake'),
                 p_nested=0.4, width=(2, 2, 3)),
+    'c08f': dict(kinds=dict(handler=4, proc=6, buffer=1, batcher=0, gates=0, path=0), width=(2, 3, 3), n_layers=(1, 1, 2),
+                 p_fanin=1.0, p_resources=0.7, n_sources=(1, 1, 2), p_batch_source=0.0,
+                 fault_kinds=('fail', 'shutdown', 'restore', 'wo', 'addres', 'block', 'block', 'wake'),
+                 n_ops=(2, 5, 10, 20)),
     'c11': dict(kinds=dict(handler=2, proc=8, buffer=2, batcher=0, gates=1, path=3), p_resources=1.0,
                 fault_kinds=('fail', 'shutdown', 'restore', 'wo', 'addres', 'addres', 'block', 'wake')),
     'c13': dict(kinds=dict(handler=3, proc=7, buffer=2, batcher=0, gates=1, path=1),
